@@ -1045,8 +1045,10 @@ impl<K: AsRef<Key>> ServerSequence<K> {
                 &variables,
             )
         };
-        self.context.apply_signature(mac.as_ref());
+        // The MAC of this message is digested into the next one as it is
+        // transmitted, i.e., truncated (RFC 8945, section 5.3.1).
         let mac = self.key().signature_slice(&mac);
+        self.context.apply_signature(mac);
         self.key().complete_message(message, &variables, mac)
     }
 
